@@ -18,10 +18,11 @@ Definition base_limit (n : Z) : option (Z * Z) :=
   match n with
   | 1 => Some (0, 8) | 3 => Some (1, 255) | 4 => Some (1, 8) | 5 => Some (0, 0)
   | 6 => Some (0, 3) | 7 => Some (0, 2) | 8 => Some (0, 255) | 9 => Some (0, 255)
-  | 11 => Some (0, 255) | 12 => Some (0, 2) | 14 => Some (0, 4) | 15 => Some (1, 255)
-  | 16 => Some (1, 1) | 17 => Some (0, 2) | 20 => Some (0, 255) | 23 => Some (0, 3)
-  | 27 => Some (0, 3) | 28 => Some (0, 4) | 35 => Some (1, 1034) | 39 => Some (1, 255)
-  | 60 => Some (0, 4) | 252 => Some (0, 40) | 258 => Some (0, 1) | 292 => Some (0, 8)
+  | 11 => Some (0, 255) | 12 => Some (0, 2) | 14 => Some (0, 4) | 15 => Some (0, 255)
+  | 16 => Some (1, 1) | 17 => Some (0, 2) | 19 => Some (0, 3) | 20 => Some (0, 255)
+  | 23 => Some (0, 3) | 27 => Some (0, 3) | 28 => Some (0, 4) | 31 => Some (0, 3)
+  | 35 => Some (1, 1034) | 39 => Some (1, 255)
+  | 60 => Some (0, 4) | 252 => Some (1, 40) | 258 => Some (0, 1) | 292 => Some (0, 8)
   | _ => None
   end.
 
